@@ -20,6 +20,9 @@ DescP(nt, preds) == Path(TRUE, <<DosNode, Step("child", nt, preds)>>)   \* //nt[
 
 N(i) == NumLit(NumInt(i))
 
+PosFn  == Call("position", <<>>)
+LastFn == Call("last", <<>>)
+
 \* one-step relative paths used inside predicates
 PredPaths(axes, tests) == {Rel1(ax, nt) : ax \in axes, nt \in tests}
 
@@ -72,6 +75,22 @@ PoolC02b(hostAxes, hostTests, A) ==
 PoolC02two(hostAxes, hostTests, A) ==
     {Path(FALSE, <<Step(hax, hnt, <<p, q>>)>>) : hax \in hostAxes, hnt \in hostTests, p \in A, q \in A}
 
+\* boolean combinations whose operands are multi-step paths with function-valued / positional nested
+\* predicates (the builder's merge rewrite) next to operands that read the context node
+MergeOperands ==
+    {Path(FALSE, <<Step("child", NTAny, <<>>), Step("child", NTAny, <<p>>)>>) :
+        p \in {Call("contains", <<SelfDot, Lit("1")>>), Call("not", <<Rel1("child", NTAny)>>), N(1), LastFn,
+                Bin(">", Call("count", <<Rel1("child", NTAny)>>), N(0)), Bin("=", SelfDot, Lit("1"))}}
+    \cup {Path(FALSE, <<Step("descendant", NTAny, <<>>), Step("child", NTAny, <<N(1)>>)>>),
+          Path(FALSE, <<Step("child", NTAny, <<>>), Step("following-sibling", NTAny, <<Call("not", <<Rel1("child", NTAny)>>)>>)>>)}
+ContextOperands == {Rel1("child", NTName("a")), Rel1("child", NTAny), Bin("=", SelfDot, Lit("1")), Rel1("parent", NTAny),
+                    Rel1("following-sibling", NTAny), Call("not", <<Rel1("child", NTName("b"))>>)}
+PoolC02merge(hostAxes) ==
+    UNION {HostForms(Step(hax, NTAny, <<p>>)) : hax \in hostAxes,
+             p \in {Bin(op, x, y) : op \in {"and", "or"}, x \in MergeOperands, y \in ContextOperands}
+                   \cup {Bin(op, y, x) : op \in {"and", "or"}, x \in MergeOperands, y \in ContextOperands}
+                   \cup {Bin("=", x, Lit("1")) : x \in MergeOperands}}
+
 \* parenthesised path followed by a boolean predicate:  (path)[p]
 PoolC02paren(paths, A) == {Filter(pa, <<p>>, <<>>) : pa \in paths, p \in A}
 \* ... followed by several predicates, and by further steps
@@ -81,8 +100,6 @@ PoolC02paren2(paths, A) == {Filter(pa, <<p, q>>, <<>>) : pa \in paths, p \in A, 
 (***************************************************************************)
 (* C03: positional predicates, first on a child-axis step                  *)
 (***************************************************************************)
-PosFn  == Call("position", <<>>)
-LastFn == Call("last", <<>>)
 PosAtoms(maxN) ==
     {N(n) : n \in 1 .. maxN}
     \cup {Bin(op, PosFn, N(n)) : op \in CmpOps, n \in 1 .. maxN}
@@ -238,6 +255,18 @@ PoolC15ops == {Bin(op, l, r) : op \in AllBinOps, l \in TypeReps \cup ZeroOperand
               \cup {Bin("=", Call("round", <<Dec(5, 1)>>), N(3)), Bin("+", Call("round", <<N(2)>>), N(1)),
                     Call("string", <<Call("round", <<Dec(5, 1)>>)>>), Call("round", <<NaNExpr>>), Call("round", <<InfExpr>>),
                     Bin("mod", N(1), N(0)), Bin("mod", Dec(1, 1), Dec(1, 2)), Bin("mod", InfExpr, N(2)), Bin("mod", NaNExpr, N(2))}
+\* argument VALUES that index into strings / sequences
+EdgeNums == {N(0), N(1), N(2), N(5), N(7), N(100), Neg(N(1)), Neg(N(100)), Dec(1, 1), Dec(5, 1), NaNExpr, InfExpr, Neg(InfExpr)}
+EdgeStrs == {Lit(""), Lit("a"), Lit("abc"), Lit("12345"), Rel1("child", NTName("zz")), Rel1("child", NTAny)}
+PoolC15edges ==
+    {Call("substring", <<s, a>>) : s \in EdgeStrs, a \in EdgeNums}
+    \cup {Call("substring", <<s, a, b>>) : s \in EdgeStrs, a \in EdgeNums, b \in EdgeNums}
+    \cup {Call("translate", <<s, a, b>>) : s \in EdgeStrs, a \in {Lit(""), Lit("a"), Lit("abc"), Lit("aa")}, b \in {Lit(""), Lit("x"), Lit("xyzw")}}
+    \cup {Call(f, <<s, a>>) : f \in {"substring-before", "substring-after", "starts-with", "ends-with", "contains"},
+                               s \in EdgeStrs, a \in {Lit(""), Lit("a"), Lit("abcd"), Rel1("child", NTName("zz"))}}
+    \cup {Filter(Rel1("child", NTAny), <<a>>, <<>>) : a \in EdgeNums} \cup {Path(FALSE, <<Step("child", NTAny, <<a>>)>>) : a \in EdgeNums}
+    \cup {Call("string-join", <<Rel1("child", NTName("zz")), Lit(",")>>), Call("sum", <<Rel1("child", NTName("zz"))>>),
+          Call("reverse", <<Rel1("child", NTName("zz"))>>), Call("concat", <<Lit(""), Lit("")>>)}
 AllAxisNames == Axes \cup {"namespace"}
 PoolC15misc ==
     {Bin(op, Var("x"), N(1)) : op \in {"+", "=", "and", "<"}} \cup {Var("x"), Filter(Var("x"), <<>>, <<Step("child", NTAny, <<>>)>>),
@@ -283,6 +312,9 @@ PoolC04 ==
     PE(DescP(TB, <<Rel1("child", TC), N(1)>>), "none"),
     PE(Filter(Desc(TC), <<LastFn>>, <<>>), "none"),
     PE(DescP(TB, <<Rel1("attribute", TA), LastFn>>), "none"),
+    PE(DescP(NTAny, <<Rel1("child", NTAny), LastFn>>), "none"),
+    PE(DescP(TB, <<Bin("!=", SelfDot, Lit("")), LastFn>>), "none"),
+    PE(DescP(NTAny, <<Rel1("child", NTAny), Bin("=", PosFn, LastFn)>>), "none"),
     PE(Call("count", <<Desc(TB)>>), "set"),
     PE(Call("string-join", <<Desc(TB), Lit(",")>>), "set"),
     PE(Call("sum", <<Desc(TB)>>), "none"),
@@ -358,7 +390,12 @@ UOperands(names) ==
       Rel1("child", NTAny), Rel1("descendant", NTAny), Rel1("descendant-or-self", NTNode), Rel1("ancestor-or-self", NTAny),
       Rel1("following", NTNode), Rel1("preceding", NTNode), Rel1("attribute", NTAny), SelfDot,
       Path(FALSE, <<Step("child", NTAny, <<>>), Step("child", NTAny, <<>>)>>),
-      Path(FALSE, <<Step("child", NTAny, <<>>), Step("child", NTText, <<>>)>>) }
+      Path(FALSE, <<Step("child", NTAny, <<>>), Step("child", NTText, <<>>)>>),
+      \* operands that deliver the same node several times on their own
+      Path(TRUE, <<DosNode, Step("child", NTAny, <<>>), Step("parent", NTNode, <<>>)>>),
+      Path(FALSE, <<Step("child", NTAny, <<>>), Step("parent", NTNode, <<>>)>>),
+      Path(TRUE, <<DosNode, Step("attribute", NTAny, <<>>), Step("parent", NTNode, <<>>)>>),
+      Path(FALSE, <<Step("descendant", NTNode, <<>>), Step("ancestor", NTAny, <<>>)>>) }
     \cup {Rel1("child", NTName(n)) : n \in names} \cup {Desc(NTName(n)) : n \in names}
 PoolC11pairs(names) == {Union(l, r) : l \in UOperands(names), r \in UOperands(names)}
 PoolC11nested(names) ==
